@@ -86,4 +86,7 @@ def executor(flavour="on", **kw):
         # Cell::with_tags always stores value().clone(): the wrapped value is never itself a wrapper
         return [z3.BitVec(origin + ".1.discr", 64) != z3.BitVecVal(10, 64)]
     ex.tc.invariants["WithTag"] = withtag_inv
+    from e2.bitstr_model import install, install_structural
+    install(ex)
+    install_structural(ex)
     return ex
